@@ -48,6 +48,9 @@ def main():
     J, N = cfg["J"], cfg["N"]
     fault = cfg["fault"]          # dict(call, instant, how, victims)
     parent = os.getpid()
+    if fault["instant"] == "idle_between_calls" and str(fault["how"]).startswith("exit:"):
+        # workers inherit the variable: each leaves a thread behind that exits with the requested status on demand
+        os.environ["C10_MINE_DIR"] = os.path.dirname(os.path.abspath(outfile))
     p = Parallel(n_jobs=J, backend="loky", batch_size=cfg.get("batch_size", 1), pre_dispatch=cfg.get("pre_dispatch", "2*n_jobs"))
     calls = []
     last_pids = []
@@ -161,6 +164,16 @@ def main():
                 continue
             if fault["call"] == k and fault["instant"] == "idle_between_calls" and last_pids:
                 vict = last_pids[:fault["victims"]]
+                if str(fault["how"]).startswith("exit:"):
+                    for pid in vict:
+                        with open(os.path.join(os.environ["C10_MINE_DIR"], f"die_{pid}.tmp"), "w") as f:
+                            f.write(fault["how"][5:])
+                        os.replace(os.path.join(os.environ["C10_MINE_DIR"], f"die_{pid}.tmp"), os.path.join(os.environ["C10_MINE_DIR"], f"die_{pid}"))
+                    t_end = time.monotonic() + 10
+                    while any(alive(pid) for pid in vict) and time.monotonic() < t_end:
+                        time.sleep(0.01)
+                    note(ev="idle_workers_exited", pids=vict, status=fault["how"], still_alive=[pid for pid in vict if alive(pid)])
+                    vict = []
                 for pid in vict:
                     try:
                         os.kill(pid, {"SIGKILL": signal.SIGKILL, "SIGTERM": signal.SIGTERM, "SIGSEGV": signal.SIGSEGV}.get(fault["how"], signal.SIGKILL))
